@@ -25,7 +25,9 @@ def _replay_create_fees(tf_shape):
     def build(m):
         tf = {'none': [], 'other': [('uom', m['tf1'])], 'same': [('uusd', m['tf1'])], 'two': [('uusd', m['tf1']), ('uom', m['tf2'])]}[tf_shape]
         funds = [(d, m[k]) for d, k in (('uatom', 'paid_atom'), ('uom', 'paid_om'), ('uusd', 'paid_usd')) if m[k] > 0]
-        steps = _mints([('creator', funds)])
+        # an older pool whose reserves are in the fee denoms (the pool manager holds them)
+        steps = [{'op': 'set_pool', 'pool': pool_json('o.old', ['uom', 'uusd'], [6, 6], [m.get('old_reserve_om', 0), m.get('old_reserve_usd', 0)], 'constant_product', (0, 0, 0, []))}]
+        steps += _mints([('pool_manager', [('uom', m.get('old_reserve_om', 0)), ('uusd', m.get('old_reserve_usd', 0))]), ('creator', funds)])
         steps.append({'op': 'execute', 'contract': 'pool_manager', 'sender': 'creator', 'funds': [coin_j(d, a) for d, a in funds],
                       'msg': {'create_pool': {'asset_denoms': ['uA', 'uB'], 'asset_decimals': [6, 6],
                                               'pool_fees': {'protocol_fee': {'share': '0.001'}, 'swap_fee': {'share': '0.001'}, 'burn_fee': {'share': '0'}, 'extra_fees': []},
@@ -43,6 +45,12 @@ def _ob_create_fees(tf_shape):
         F = I.sym('creation_fee', hi=U128 // 4)
         pm_config(I, creation_fee=coin_v('uusd', F))
         I.world.store(PM)['pool_count'] = 0
+        # an older pool whose reserves are in the fee denoms: the pool manager holds exactly its reserves
+        ro = I.sym('old_reserve_om', hi=U128 // 4)
+        ru = I.sym('old_reserve_usd', hi=U128 // 4)
+        put_pool(I, pool_info('o.old', ['uom', 'uusd'], [6, 6], [ro, ru], xyk(), pool_fee(0, 0, 0)))
+        bank_of(I).set(PM, 'uom', ro)
+        bank_of(I).set(PM, 'uusd', ru)
         t1 = I.sym('tf1', lo=1, hi=U128 // 4)
         t2 = I.sym('tf2', lo=1, hi=U128 // 4)
         tf = {'none': [], 'other': [coin_v('uom', t1)], 'same': [coin_v('uusd', t1)], 'two': [coin_v('uusd', t1), coin_v('uom', t2)]}[tf_shape]
@@ -74,8 +82,12 @@ def _ob_create_fees(tf_shape):
         I.check('accepted_only_with_exact_fees', exact)
         I.check('creation_fee_to_fee_collector', smt.Eq(b.get('fee_collector', 'uusd'), pre.get('fee_collector', 'uusd') + F))
         I.check('nothing_kept', smt.And(*[smt.Eq(b.get(PM, d), pre.get(PM, d)) for d in ('uusd', 'uom', 'uatom')]))
+        # (C01) the older pool's reserves are still reported in full and still backed
+        old = get_pool(I, 'o.old')
+        I.check('reserves_of_other_pools_stay_backed',
+                old is not None and smt.And(smt.Eq(reserves_of(old)[0], ro), smt.Eq(reserves_of(old)[1], ru), b.get(PM, 'uom') >= ro, b.get(PM, 'uusd') >= ru))
         ms = I.world.store(PM).get('pools')
-        pools = [v for _, v in ms.entries] if ms is not None else []
+        pools = [v for _, v in ms.entries if v.get('pool_identifier') != 'o.old'] if ms is not None else []
         I.check('exactly_one_pool_stored', len(pools) == 1)
         p = pools[0] if len(pools) == 1 else None
         if p is not None:
